@@ -56,6 +56,8 @@ def _forms(a_ops, b_ops, din, cp):
     if cp:
         f["flat"] = list(a_ops)
         f["col"] = [[a] for a in a_ops]
+        if len(a_ops) > 2:
+            f["row"] = [list(a_ops)]
     return f
 
 
